@@ -34,6 +34,9 @@ def run_case(case: dict) -> Result:
     if root is None:
         return Result(discard=True)
     classes = set()
+    bad0 = O.invariants(root)
+    if bad0:
+        return res.bad(f'{bad0[0][0]}:after-parse', f'the freshly parsed document is not a valid tree: {bad0[:3]} ; text {O.store_text(root.token_store)!r}')
     hot: set[int] = set()
     hot_tokens: set[int] = set()
     applied = 0
